@@ -646,10 +646,18 @@ class RelativeJSONPointer:
                 raise RelativeJSONPointerIndexError(
                     "the document root has no member name or index"
                 )
-            parts[-1] = f"#{parts[-1]}"
 
-        # Both pointers have been decoded already.
-        return JSONPointer.from_parts(parts, unicode_escape=False, uri_decode=False)
+        try:
+            if not isinstance(self.pointer, JSONPointer):
+                parts[-1] = f"#{parts[-1]}"
+
+            # Both pointers have been decoded already.
+            return JSONPointer.from_parts(
+                parts, unicode_escape=False, uri_decode=False
+            )
+        except ValueError as err:
+            # The new index has more digits than Python will write.
+            raise RelativeJSONPointerIndexError("index offset out of range") from err
 
 
 def resolve(
